@@ -3,12 +3,19 @@ package absnfs
 // C05 — handles live when issued, one per path, table bounded.
 // C06 — a handle value never silently refers to a different object.
 
-import "github.com/absfs/absfs"
+import (
+	"bytes"
+	"fmt"
+
+	"github.com/absfs/absfs"
+)
 
 func init() {
 	vpRegister("VPH_C05_step", VPH_C05_step)
 	vpRegister("VPH_C05_run", VPH_C05_run)
 	vpRegister("VPH_C05_handlers", VPH_C05_handlers)
+	vpRegister("VPH_C05_overflow", VPH_C05_overflow)
+	vpRegister("VPH_C05_mnt", VPH_C05_mnt)
 	vpRegister("VPH_C06_step", VPH_C06_step)
 	vpRegister("VPH_C06_releaseall", VPH_C06_releaseall)
 	vpRegister("VPH_C06_stale", VPH_C06_stale)
@@ -250,6 +257,71 @@ func VPH_C05_handlers() {
 	vpAssert(st == NFS_OK, "issued-handle-resolves")
 	a := rg.fattr()
 	vpAssert(a.fileid == vpFnv64a(want), "issued-handle-names-the-object")
+}
+
+// VPH_C05_overflow: maxima large enough for the eviction pass to remove several handles at once
+// (maxHandles/10 >= 2), which the symbolic-table step cannot reach with three entries: the table is
+// filled past its maximum twice over with distinct paths, with one release at a symbolic position (so
+// that free-list ids of every rank are re-used while an eviction runs); after every Allocate the handle
+// just issued is live and resolves to its node and the table is within its maximum.
+func VPH_C05_overflow() {
+	max := []int{19, 20, 30, 41}[vpChoose("max", 0, 3)]
+	total := max + 2*(max/10) + 6
+	fm := &FileHandleMap{handles: map[uint64]absfs.File{}, pathHandles: map[string]uint64{}, nextHandle: 1, freeHandles: NewUint64MinHeap(), maxHandles: max}
+	relAt := vpChoose("release-at", 0, total) // == total: no release
+	var issued []uint64
+	for i := 0; i < total; i++ {
+		if i == relAt && len(issued) > 0 {
+			vpReach("overflow-release")
+			fm.Release(issued[vpChoose("release-which", 0, 3)%len(issued)])
+		}
+		node := &NFSNode{path: fmt.Sprintf("/f%d", i), attrs: &NFSAttrs{Mode: 0644}}
+		before := fm.Count()
+		got := fm.Allocate(node)
+		if before == max {
+			vpReach("overflow-eviction")
+		}
+		vpAssert(fm.Count() <= max, "overflow-count-within-maximum")
+		f, live := fm.Get(got)
+		vpAssert(live, "overflow-issued-handle-is-live")
+		vpAssert(f == absfs.File(node), "overflow-issued-handle-resolves-to-its-object")
+		// a reissue for the same path while the handle is live gives the same value
+		vpAssert(fm.Allocate(&NFSNode{path: node.path, attrs: &NFSAttrs{Mode: 0644}}) == got, "overflow-same-path-same-handle")
+		issued = append(issued, got)
+	}
+}
+
+// VPH_C05_mnt: MNT names a directory by path; however the client spells it, the handle for a
+// directory that already has a live handle is that handle (one handle per object), it resolves, and
+// the table does not grow.
+func VPH_C05_mnt() {
+	fs := vpStdTree()
+	env := vpServer(fs, ExportOptions{})
+	hd := env.handleFor("/d")
+	spelling := []string{"/d", "/d/", "//d", "/d/.", "/e/../d", "/./d"}[vpChoose("spelling", 0, 5)]
+	countBefore := env.nfs.fileMap.Count()
+	var b vpBuf
+	b.str(spelling)
+	call := &RPCCall{Header: RPCMsgHeader{Xid: 9, MsgType: RPC_CALL, RPCVersion: 2, Program: MOUNT_PROGRAM, Version: 3, Procedure: 1},
+		Credential: RPCCredential{Flavor: AUTH_NONE}}
+	reply, err := env.h.HandleCall(call, bytes.NewReader(b.Bytes()), &AuthContext{ClientIP: "127.0.0.1", ClientPort: 700, Credential: &call.Credential})
+	vpAssert(vpAnd(err == nil, reply != nil), "mnt-answered")
+	rd := &vpRd{b: vpReplyBytes(reply)}
+	if rd.u32() != 0 {
+		vpReach("mnt-refused") // refusing an odd spelling is fine; issuing a second handle is not
+		return
+	}
+	vpReach("mnt-ok")
+	fh := rd.opaque()
+	vpAssert(len(fh) == 8, "mnt-handle-length")
+	got := (&vpRd{b: fh}).u64()
+	vpAssert(got == hd, "mnt-same-object-same-handle")
+	vpAssert(env.nfs.fileMap.Count() == countBefore, "mnt-reissue-does-not-grow-the-table")
+	var g vpBuf
+	g.fh(got)
+	rg := &vpRd{b: vpReplyBytes(env.call(NFSPROC3_GETATTR, g.Bytes()))}
+	vpAssert(rg.u32() == NFS_OK, "mnt-handle-resolves")
+	vpAssert(rg.fattr().fileid == vpFnv64a("/d"), "mnt-handle-names-the-directory")
 }
 
 // VPH_C06_step: the same arbitrary table with a ghost record of the path each id was
